@@ -279,7 +279,7 @@ PROPERTIES = {
         "runs": [{"suite": "conv"}],
         "regen": {"groups": ["Conv", "Pointer", "Token", "PtrOps", "Buf", "PtrBuild"]},
         "technique": REGEN_TECHNIQUE + " (regenerated: the text-level conversions and fallible constructors; the serde impls, Display, the Box casts and the integer -> Token macro stay hand-modelled)",
-        "level_suffix": regen_note("Pointer::as_str / to_owned / parse / to_json_value, AsRef<str> / AsRef<[u8]> / AsRef<Pointer> / Borrow<str> / Borrow<Pointer> / Deref / as_ptr, PointerBuf::new / root, TryFrom<String> / TryFrom<&str> / FromStr for PointerBuf and Token::from for &str / &String / String / &Token (Properties/C18_src.v: the views are the identity on the text, the constructors ARE the parser and keep the input text, a Token from text holds the escaped text)"),
+        "level_suffix": regen_note("Pointer::as_str / to_owned / parse / to_json_value, AsRef<str> / AsRef<[u8]> / AsRef<Pointer> / Borrow<str> / Borrow<Pointer> / Deref / as_ptr, PointerBuf::new / root, TryFrom<String> / TryFrom<&str> / FromStr for PointerBuf, Token::from for &str / &String / String / &Token, and the Display impls of Pointer, PointerBuf and Token read as the text they write (Properties/C18_src.v: a pointer prints exactly its text, a token its decoded text; the views are the identity on the text, the constructors ARE the parser and keep the input text, a Token from text holds the escaped text)"),
         "level_text": "THIN THEOREMS, HEAVY TIE for the identity conversions. Proved in Coq: deserialize(serialize p) = p for valid p and deserialize refuses exactly the invalid texts (via C02); "
                       "a Token made from an integer is its decimal spelling, valid as it stands, decodes to itself, parses back as the same index, and distinct integers give distinct tokens (all integers, "
                       "the widths only restrict the domain). to_buf/to_owned/Cow/Box<->into_buf/to_json_value/Display/into_owned are the identity on the text in the model; the tie runs each of them "
@@ -304,7 +304,7 @@ PROPERTIES = {
     "C16": {
         "regen": {"groups": ['Index']},
         "technique": REGEN_TECHNIQUE,
-        "level_suffix": regen_note("impl FromStr for Index (through the code points of the text: the CHAR index it computes is proved equal to the BYTE index of the model on well-formed UTF-8), From<ParseIntError> for ParseIndexError, Index::for_len, for_len_incl, for_len_unchecked (src/index.rs; std's str::parse::<usize> is the primitive prim_parse_usize of GenTreePrelude.v, faithful to usize::from_str on ARBITRARY text - optional '+', InvalidDigit, overflow detected left to right - and proved equal to the model's parse_usize on the digit strings Index::from_str hands it)"),
+        "level_suffix": regen_note("impl FromStr for Index (through the code points of the text: the CHAR index it computes is proved equal to the BYTE index of the model on well-formed UTF-8), From<ParseIntError> for ParseIndexError, Index::for_len, for_len_incl, for_len_unchecked, Display for Index, and the chain Token::to_index -> try_into -> TryFrom<&Token> for Index (src/index.rs, src/token.rs; std's str::parse::<usize> is the primitive prim_parse_usize of GenTreePrelude.v, faithful to usize::from_str on ARBITRARY text - optional '+', InvalidDigit, overflow detected left to right - and proved equal to the model's parse_usize on the digit strings Index::from_str hands it)"),
         "runs": [{"suite": "index", "profile": "debug"}, {"suite": "index", "profile": "release"}],
         "level_text": "Proved in Coq for all byte strings and all naturals: index_from_str s = Ok(Num n) iff n <= usize::MAX and s is the canonical decimal spelling of n (bridge to the stdlib's "
                       "N.to_uint / N.of_uint round trip), Ok(Next) iff s = \"-\"; parse after Display and Display after parse are identities; each rejection is characterised by an iff "
